@@ -547,6 +547,29 @@ pub fn run(data: &[u8], ctx: &mut Ctx) -> Outcome {
         check!(ctx, !matches!(r, Ok(true)), "decorated", "C09/decorated-signed-assertion", "a key that did not sign verifies");
         ctx.nontrivial = true;
     }
+    // --- a valid plain signature whose object was given assertions WITHOUT wrapping and counter-signing:
+    // 'signed': Signature [ 'note': "forged" ]. Whatever is returned as metadata for the key must be
+    // covered by that key - the forged note is covered by nobody. (drawn late)
+    if src.chance(40) {
+        let k = &pool.sig[signers[0]];
+        let sig = sign_digest(k, &subject_digest);
+        let object = Envelope::new(sig).add_assertion(known_values::NOTE, "a note nobody signed");
+        let forged = e.add_assertion(known_values::SIGNED, object);
+        if !nopanic!(ctx, unreadable_fresh_signature(&forged), "adversarial", "C09/adversarial/decorated-plain-signature") {
+            ctx.class("adversarial:decorated-plain-signature");
+            let r = nopanic!(ctx, forged.verify_signature_from_returning_metadata(&k.public), "adversarial", "C09/adversarial/decorated-plain-signature");
+            if let Ok(mdv) = r {
+                let rm = tryp!(ctx, bridge::read_out(&mdv), "readout", "C09/readout");
+                tryp!(ctx, check_metadata(&forged, &mdv, &rm, k, &subject_digest).map_err(|x| format!("'signed': Signature ['note': ..] (assertions put directly on a valid signature, no wrapping, no outer signature): {} - returned {}", x, rm.show())), "adversarial", "C09/adversarial/decorated-plain-signature/uncovered");
+            }
+            let h = nopanic!(ctx, forged.has_signature_from_returning_metadata(&k.public), "adversarial", "C09/adversarial/decorated-plain-signature");
+            if let Ok(Some(mdv)) = h {
+                let rm = tryp!(ctx, bridge::read_out(&mdv), "readout", "C09/readout");
+                tryp!(ctx, check_metadata(&forged, &mdv, &rm, k, &subject_digest), "adversarial", "C09/adversarial/decorated-plain-signature/uncovered");
+            }
+            ctx.nontrivial = true;
+        }
+    }
     // --- the 'signed' predicate itself obscured after signing (lookups go by digest), and one key signing
     // twice (a threshold counts signers, not signatures). Drawn last.
     if src.chance(64) {
